@@ -66,6 +66,15 @@ impl Stats {
             self.violations.push(v);
         }
     }
+    /// Record an unexplained violation of a named class; at most 3 per class are written out.
+    pub fn violation_class(&mut self, class: &str, v: Value) {
+        self.inc("violations");
+        let k = format!("violations.{class}");
+        self.inc(&k);
+        if self.get(&k) <= 3 && self.violations.len() < MAX_VIOLATIONS {
+            self.violations.push(v);
+        }
+    }
     /// Record a case absorbed by a known-finding predicate.
     pub fn known(&mut self, pred: &str, example: impl FnOnce() -> Value) {
         match self.known.get_mut(pred) {
